@@ -936,6 +936,10 @@ def run(prog, rep, tier):
     rep.rule('LOOP-stale-read', 'no per-item variable is read in a loop before the iteration assigns '
              'it when its only other bindings are inside other loops')
     check_stale_loop_reads(prog, rep, ['tenpy/networks/mps.py', 'tenpy/networks/site.py', 'tenpy/networks/terms.py'])
+    rep.rule('SITE-perm-flag', 'composing a permutation into Site.perm and setting used_sort_charge '
+             'are coupled updates')
+    if check_perm_flag(prog, rep) < 1:
+        raise AnalysisError('SITE-perm-flag: update of Site.perm not found')
     return rep.finish(
         level='other',
         explanation='Operator-registry coupling, Jordan-Wigner routing, parameter-family '
@@ -977,4 +981,40 @@ def check_jw_left_operator(prog, rep):
                               'attached elsewhere the string is one site off -- pairing terms '
                               'C_i C_j / Cd_i Cd_j and spinful hopping change sign structure'
                               % key_text(st)[:60], st.lineno)
+    return n
+
+
+# ------------------------------------------------------------------ SITE-perm-flag
+def check_perm_flag(prog, rep):
+    """SITE-perm-flag: `Site.perm` records how the local basis was re-ordered; add_op() permutes a
+    dense operator given in the standard basis with it iff `used_sort_charge` is set (default of
+    `permute_dense`). The two are coupled: every method of Site that composes a permutation into
+    `self.perm` also sets `self.used_sort_charge = True`, in the same branch."""
+    m = prog.module('tenpy/networks/site.py')
+    ct = prog.classtable()
+    ci = ct.get('Site')
+    n = 0
+    for name, f in ci.methods.items():
+        if name == '__init__':
+            continue
+        for st in stmts_of(f):
+            if not (isinstance(st, ast.Assign) and any(is_self_attr(t, 'perm') for t in st.targets)
+                    and any(is_self_attr(x, 'perm') for x in ast.walk(st.value))):
+                continue
+            n += 1
+            blk = parent(st)
+            body = None
+            for fld in ('body', 'orelse', 'finalbody'):
+                if st in (getattr(blk, fld, None) or []):
+                    body = getattr(blk, fld)
+            ok = any(isinstance(s2, ast.Assign) and any(
+                is_self_attr(t, 'used_sort_charge') for t in s2.targets) and isinstance(
+                    s2.value, ast.Constant) and s2.value.value is True for s2 in (body or []))
+            rep.instance('SITE-perm-flag', {'method': 'Site.' + name, 'update': key_text(st)[:50],
+                                            'flag_set_in_same_block': ok})
+            if not ok:
+                rep.violation('SITE-perm-flag', m, 'Site.' + name, 'perm-without-flag',
+                              '`%s` composes a permutation into self.perm but the block does not '
+                              'set self.used_sort_charge = True: add_op() keeps storing dense '
+                              'operators in the un-permuted basis' % key_text(st)[:50], st.lineno)
     return n
